@@ -91,6 +91,19 @@ def localPhase1 (sc : Schema) (cfg : Cfg) : Table → LocalTx → Except P1Err (
       | .error e => .error e
       | .ok (t2, b) => .ok (t2, { items := if item.nonEmpty then item :: b.items else b.items, lockKeys := keys ++ b.lockKeys })
 
+/-- a local transaction whose application carries on after a failed statement (the database has
+    rolled that statement back; the transaction stays open) and commits: the failed statements
+    contribute nothing -/
+def localPhase1Lenient (sc : Schema) (cfg : Cfg) : Table → LocalTx → Table × Branch × Nat
+  | t, [] => (t, { items := [], lockKeys := [] }, 0)
+  | t, (s, args) :: rest =>
+    match stmtPhase1 sc cfg t args s with
+    | .error _ => localPhase1Lenient sc cfg t rest
+    | .ok (t1, item, keys) =>
+      let r := localPhase1Lenient sc cfg t1 rest
+      (r.1, { items := if item.nonEmpty then item :: r.2.1.items else r.2.1.items, lockKeys := keys ++ r.2.1.lockKeys },
+        r.2.2 + 1)
+
 /-! Undo -/
 
 def cellsEq (a b : List (Nat × Val)) : Bool := a.all fun p => (b.find? (fun q => q.1 == p.1)).map (·.2) == some p.2
